@@ -53,6 +53,44 @@ def call_stmt(xs, log):
         log(x)
     return 0
 
+def any_flag(xs):
+    found = False
+    for x in xs:
+        if x.bounds.lower > 0:
+            found = True
+    return found
+
+def capped_total(xs):
+    t = 0
+    for x in xs:
+        if t < 10:
+            t += x.bounds.lower
+    return t
+
+def first_three(xs):
+    out = []
+    n = 0
+    for x in xs:
+        if n < 3:
+            out.append(x)
+        n += 1
+    return out
+
+def all_flag(xs):
+    ok = True
+    for x in xs:
+        ok = ok and x.bounds.lower > 0
+    return ok
+
+def toggling_flag(xs):
+    last = False
+    for x in xs:
+        if x.bounds.lower > 0:
+            last = True
+        else:
+            last = False
+    return last
+
 def keep_pos_comp(xs):
     return [x for x in xs if x.bounds.lower > 0]
 
@@ -154,6 +192,13 @@ def main():
         ("keep_pos_alias", lambda xs, r: seq_len(r) == seq_sum(xs, lambda x: lift(z3.If(pos(x).t, 1, 0))), "PROVED"),
         ("keep_pos_alias", lambda xs, r: seq_len(r) == seq_len(xs), "REFUTED"),
         ("call_stmt", lambda xs, r: r == 0, "UNSUPPORTED"),       # an arbitrary call statement per element: refused
+        ("any_flag", lambda xs, r: lift(r) == seq_any(xs, pos) if not isinstance(r, bool) else (r == seq_any(xs, pos)), "PROVED"),
+        ("any_flag", lambda xs, r: lift(r) == seq_all(xs, pos) if not isinstance(r, bool) else (r == seq_all(xs, pos)), "REFUTED"),
+        ("all_flag", lambda xs, r: lift(r) == seq_all(xs, pos) if not isinstance(r, bool) else (r == seq_all(xs, pos)), "PROVED"),
+        ("all_flag", lambda xs, r: lift(r) == seq_any(xs, pos) if not isinstance(r, bool) else (r == seq_any(xs, pos)), "REFUTED"),
+        ("capped_total", lambda xs, r: True, "UNSUPPORTED"),      # the update depends on the running total: not a fold
+        ("first_three", lambda xs, r: True, "UNSUPPORTED"),       # positional selection: order-dependent, refused
+        ("toggling_flag", lambda xs, r: True, "UNSUPPORTED"),     # last writer wins: order-dependent, refused
         ("keep_pos_comp", lambda xs, r: seq_sum(r, lo) == seq_sum(xs, lambda x: lift(z3.If(pos(x).t, lo(x).t, 0))), "PROVED"),
         ("all_pos", lambda xs, r: lift(r) == seq_all(xs, pos) if not isinstance(r, bool) else (r == True) == seq_all(xs, pos), "PROVED"),
         ("all_pos_wrong", lambda xs, r: (r == True) == seq_all(xs, pos), "REFUTED"),
